@@ -198,6 +198,20 @@ def _exec_tree(case):
     all_nodes = [path for path, _ in _walk(MPDrawParams())]
     at = "root" if not node_path else ("leaf" if not any(len(q) > len(node_path) and q[:len(node_path)] == node_path
                                                           for q in all_nodes) else "inner")
+    if not node_path:
+        # the constructor route: MPDrawParams(field=v) must carry the value to every nested group as a Set at the root does
+        base = snapshot(MPDrawParams())
+        for field in ("time_begin", "time_end", "antialiased"):
+            v = _values_for(field, MPDrawParams(), ())[0]
+            try:
+                after, res = snapshot(MPDrawParams(**{field: v})), "ok"
+            except Exception as ex:
+                after, res = base, "exc:" + type(ex).__name__
+            ev.append({"op": "set", "node": [], "field": field, "v": _tok(v), "res": res,
+                       "vals": [[list(path), tok] for (path, k), tok in sorted(after.items()) if k == field],
+                       "changed": [[list(path), k] for (path, k) in sorted(set(base) | set(after))
+                                   if base.get((path, k), "<absent>") != after.get((path, k), "<absent>")],
+                       "sig": "propagate/%s@root/constructor" % field})
     for field in case["fields"]:
         p, memo = MPDrawParams(), {}
         v1, v2 = _values_for(field, p, node_path)
